@@ -1,5 +1,6 @@
 import MdsVerif.Proofs.Cursor
 import MdsVerif.Proofs.CursorHist
+import MdsVerif.Drv.C03
 /-!
 # C03 — `stree.Cursor` navigation is consistent with key order and tree structure
 
@@ -272,6 +273,34 @@ theorem C03_reachable (cmp : α → α → Ordering) [Std.TransCmp cmp] (ops : L
   cases cur with
   | none => trivial
   | some p => exact this
+
+/-! ## the comparators the driver runs are total preorders -/
+
+instance cmpNat_trans : Std.TransCmp MdsVerif.Drv.C03.cmpNat :=
+  inferInstanceAs (Std.TransCmp (fun a b : Int => compare a b))
+instance cmpDiv10_trans : Std.TransCmp MdsVerif.Drv.C03.cmpDiv10 :=
+  MdsVerif.Props.C01.transCmp_on (compare : Int → Int → Ordering) (fun a : Int => a.tdiv 10)
+instance drvCmp_trans (d : MdsVerif.Drv.C03.S) : Std.TransCmp d.cmp := by
+  unfold MdsVerif.Drv.C03.S.cmp; split <;> infer_instance
+
+/-- **C03_reachable for what the driver executes**: stream `C03` runs `Model.Cursor.step` with
+`Drv.C03.S.cmp` (natural order on `int`, or order by `a / 10` with equivalent distinct keys) and
+`sortCompact` of that comparator; in either mode every cursor register is invalid or a well-formed
+position in a search tree after every history -/
+theorem C03_reachable_drv (d : MdsVerif.Drv.C03.S) (ops : List (MdsVerif.Model.Cursor.Op Int)) :
+    let s := ops.foldl (fun s op => (MdsVerif.Model.Cursor.step d.cmp (sortCompact d.cmp) s op).1) {}
+    ∀ c cur, s.curs.get c = some cur →
+      match cur with
+      | none => True
+      | some p => p.WF ∧ Ordered d.cmp p.root := by
+  intro s c cur hg
+  have h := C03_reachable d.cmp ops c cur hg
+  cases cur with
+  | none => trivial
+  | some p => exact h
+
+example : MdsVerif.Drv.C03.cmpDiv10 12 17 = .eq ∧ MdsVerif.Drv.C03.cmpDiv10 (-3) 7 = .eq ∧
+    MdsVerif.Drv.C03.cmpNat 12 17 = .lt := by decide
 
 /-! ## non-vacuity: a skewed search tree `4 → (1 → · , 3 → (2)) , 5` walked with the model -/
 
